@@ -791,7 +791,55 @@ func runC09(c *Ctx) {
 
 // ---------------------------------------------------------------- C10
 
+// c10Sequences: significance must be judged from the two pods of THIS request. Directed sequences in one process: an update
+// that is significant because of its ephemeral containers (the stored pod already has one, the submitted pod has one more, or
+// another image), followed by an update of ANOTHER pod that adds an ephemeral container with the very name and image the
+// first stored pod had — and the same with init / regular containers. The second update adds a container: it must be
+// evaluated like a create of the submitted pod (here: denied, the pod is privileged in a namespace enforcing restricted).
+func c10Sequences(c *Ctx) {
+	priv := true
+	mkPod := func(name string, eph ...[2]string) *corev1.Pod {
+		p := &corev1.Pod{ObjectMeta: metav1.ObjectMeta{Name: name, Namespace: "team"}, Spec: corev1.PodSpec{Containers: []corev1.Container{{Name: "main", Image: "app:1", SecurityContext: &corev1.SecurityContext{Privileged: &priv}}}}}
+		for _, e := range eph {
+			p.Spec.EphemeralContainers = append(p.Spec.EphemeralContainers, corev1.EphemeralContainer{EphemeralContainerCommon: corev1.EphemeralContainerCommon{Name: e[0], Image: e[1]}})
+		}
+		return p
+	}
+	mk := func(newP, oldP *corev1.Pod, op admissionv1.Operation) *AdmitCase {
+		a := &AdmitCase{Res: "pods", Op: op, Name: newP.Name, NS: "team", User: "u", ExpireAfter: -1,
+			Defaults: admissionapi.PodSecurityDefaults{Enforce: "privileged", EnforceVersion: "latest", Audit: "privileged", AuditVersion: "latest", Warn: "privileged", WarnVersion: "latest"},
+			NSLabels: map[string]string{api.EnforceLevelLabel: "restricted"}, Obj: ObjSpec{Kind: "pod", Pod: newP}}
+		if oldP != nil {
+			a.Old = ObjSpec{Kind: "pod", Pod: oldP}
+		}
+		return a
+	}
+	for round := 0; round < 12; round++ {
+		n, img := fmt.Sprintf("debugger-%d", round%3), fmt.Sprintf("busybox:%d", round%2)
+		var first *AdmitCase
+		switch round % 3 {
+		case 0: // the stored pod has the ephemeral container; the submitted one has a second one
+			first = mk(mkPod("first", [2]string{n, img}, [2]string{"other", "x"}), mkPod("first", [2]string{n, img}), admissionv1.Update)
+		case 1: // the stored pod has it; the submitted one has it with another image
+			first = mk(mkPod("first", [2]string{n, img + "-new"}), mkPod("first", [2]string{n, img}), admissionv1.Update)
+		default: // two stored ones, one replaced
+			first = mk(mkPod("first", [2]string{n, img}, [2]string{"other", "y"}), mkPod("first", [2]string{n, img}, [2]string{"gone", "y"}), admissionv1.Update)
+		}
+		first.runGo()
+		second := mk(mkPod("second", [2]string{n, img}), mkPod("second"), admissionv1.Update)
+		got := second.runGo()
+		want := mk(mkPod("second", [2]string{n, img}), nil, admissionv1.Create).runGo()
+		c.Eval(3)
+		c.Tag("c10.sequence")
+		if d := diffAdmit(got, want, "allowed code message ann evalCalls"); len(d) > 0 {
+			c.Violate(Finding{Desc: "an update that adds an ephemeral container is not evaluated like a create when it follows an update of another pod whose stored pod had an ephemeral container of that name and image: " + strings.Join(d, "; "),
+				Key: "significant-after-other-update", Input: J{"firstRequest": first.opJSON()["req"], "secondRequest": second.opJSON()["req"]}, Go: J{"second": got, "createOfTheSamePod": want}})
+		}
+	}
+}
+
 func runC10(c *Ctx) {
+	defer c10Sequences(c)
 	n := sizes(c, 4000, 80000)
 	k := AdmitKnobs{Kind: "pod", FaultPct: 0, SynPct: 50, SubPct: 45}
 	admitSweep(c, n, k, "allowed code warnings audit ann evalCalls metrics", "allowed nEvalCalls", func(a *AdmitCase, g AdmitOut) {
